@@ -499,7 +499,7 @@ def run_grid(ctx):
     if ctx.replay and ctx.replay.get("case", {}).get("kind") == "file":
         files.append(tuple(ctx.replay["case"]["t"]))
     elif not ctx.replay:
-        for i in range(ctx.budget(48, 450)):
+        for i in range(ctx.budget(60, 1200)):
             f = gen_file(rng, thorough, i)
             files.append(f + (rng.randrange(1 << 30), rng.choice(["random", "random", "random", "fifo"])))
     lines, impl, metas = [], [], []
